@@ -83,7 +83,7 @@ def _scripts():
 
 
 def plan(tier, seed):
-    n = 3 if tier == "quick" else 60
+    n = 8 if tier == "quick" else 120
     return [{"m": mi, "rep": rep, "seed": seed} for mi in range(NMAL) for rep in range(n)]
 
 
